@@ -684,90 +684,105 @@ import (
 // ---- pricing: every priced function takes its own entry of the schedule (C16), inside one write-locked section (C19) ----
 
 //@ func (c *changeOwnerAddress) SetNewGasConfig
+//@   implements vmcommon.BuiltinFunction.SetNewGasConfig
 //@   requires c != nil && locksFree()
 //@   ensures[C16] gasCost != nil ==> c.gasCost == gasCost.BuiltInCost.ChangeOwnerAddress
 //@   ensures[C16] gasCost == nil ==> c.gasCost == old(c.gasCost)
 //@   modifies c.gasCost
 
 //@ func (c *claimDeveloperRewards) SetNewGasConfig
+//@   implements vmcommon.BuiltinFunction.SetNewGasConfig
 //@   requires c != nil && locksFree()
 //@   ensures[C16] gasCost != nil ==> c.gasCost == gasCost.BuiltInCost.ClaimDeveloperRewards
 //@   ensures[C16] gasCost == nil ==> c.gasCost == old(c.gasCost)
 //@   modifies c.gasCost
 
 //@ func (s *saveUserName) SetNewGasConfig
+//@   implements vmcommon.BuiltinFunction.SetNewGasConfig
 //@   requires s != nil && locksFree()
 //@   ensures[C16] gasCost != nil ==> s.gasCost == gasCost.BuiltInCost.SaveUserName
 //@   ensures[C16] gasCost == nil ==> s.gasCost == old(s.gasCost)
 //@   modifies s.gasCost
 
 //@ func (k *saveKeyValueStorage) SetNewGasConfig
+//@   implements vmcommon.BuiltinFunction.SetNewGasConfig
 //@   requires k != nil && locksFree()
 //@   ensures[C16] gasCost != nil ==> k.funcGasCost == gasCost.BuiltInCost.SaveKeyValue && k.gasConfig.StorePerByte == gasCost.BaseOperationCost.StorePerByte && k.gasConfig.ReleasePerByte == gasCost.BaseOperationCost.ReleasePerByte && k.gasConfig.DataCopyPerByte == gasCost.BaseOperationCost.DataCopyPerByte && k.gasConfig.PersistPerByte == gasCost.BaseOperationCost.PersistPerByte && k.gasConfig.CompilePerByte == gasCost.BaseOperationCost.CompilePerByte && k.gasConfig.AoTPreparePerByte == gasCost.BaseOperationCost.AoTPreparePerByte
 //@   ensures[C16] gasCost == nil ==> k.funcGasCost == old(k.funcGasCost) && k.gasConfig.StorePerByte == old(k.gasConfig.StorePerByte) && k.gasConfig.ReleasePerByte == old(k.gasConfig.ReleasePerByte) && k.gasConfig.DataCopyPerByte == old(k.gasConfig.DataCopyPerByte) && k.gasConfig.PersistPerByte == old(k.gasConfig.PersistPerByte) && k.gasConfig.CompilePerByte == old(k.gasConfig.CompilePerByte) && k.gasConfig.AoTPreparePerByte == old(k.gasConfig.AoTPreparePerByte)
 //@   modifies k.funcGasCost, k.gasConfig.*
 
 //@ func (e *esdtTransfer) SetNewGasConfig
+//@   implements vmcommon.BuiltinFunction.SetNewGasConfig
 //@   requires e != nil && locksFree()
 //@   ensures[C16] gasCost != nil ==> e.funcGasCost == gasCost.BuiltInCost.ESDTTransfer
 //@   ensures[C16] gasCost == nil ==> e.funcGasCost == old(e.funcGasCost)
 //@   modifies e.funcGasCost
 
 //@ func (e *esdtBurn) SetNewGasConfig
+//@   implements vmcommon.BuiltinFunction.SetNewGasConfig
 //@   requires e != nil && locksFree()
 //@   ensures[C16] gasCost != nil ==> e.funcGasCost == gasCost.BuiltInCost.ESDTBurn
 //@   ensures[C16] gasCost == nil ==> e.funcGasCost == old(e.funcGasCost)
 //@   modifies e.funcGasCost
 
 //@ func (e *esdtLocalMint) SetNewGasConfig
+//@   implements vmcommon.BuiltinFunction.SetNewGasConfig
 //@   requires e != nil && locksFree()
 //@   ensures[C16] gasCost != nil ==> e.funcGasCost == gasCost.BuiltInCost.ESDTLocalMint
 //@   ensures[C16] gasCost == nil ==> e.funcGasCost == old(e.funcGasCost)
 //@   modifies e.funcGasCost
 
 //@ func (e *esdtLocalBurn) SetNewGasConfig
+//@   implements vmcommon.BuiltinFunction.SetNewGasConfig
 //@   requires e != nil && locksFree()
 //@   ensures[C16] gasCost != nil ==> e.funcGasCost == gasCost.BuiltInCost.ESDTLocalBurn
 //@   ensures[C16] gasCost == nil ==> e.funcGasCost == old(e.funcGasCost)
 //@   modifies e.funcGasCost
 
 //@ func (e *esdtNFTCreate) SetNewGasConfig
+//@   implements vmcommon.BuiltinFunction.SetNewGasConfig
 //@   requires e != nil && locksFree()
 //@   ensures[C16] gasCost != nil ==> e.funcGasCost == gasCost.BuiltInCost.ESDTNFTCreate && e.gasConfig.StorePerByte == gasCost.BaseOperationCost.StorePerByte && e.gasConfig.ReleasePerByte == gasCost.BaseOperationCost.ReleasePerByte && e.gasConfig.DataCopyPerByte == gasCost.BaseOperationCost.DataCopyPerByte && e.gasConfig.PersistPerByte == gasCost.BaseOperationCost.PersistPerByte && e.gasConfig.CompilePerByte == gasCost.BaseOperationCost.CompilePerByte && e.gasConfig.AoTPreparePerByte == gasCost.BaseOperationCost.AoTPreparePerByte
 //@   ensures[C16] gasCost == nil ==> e.funcGasCost == old(e.funcGasCost) && e.gasConfig.StorePerByte == old(e.gasConfig.StorePerByte) && e.gasConfig.ReleasePerByte == old(e.gasConfig.ReleasePerByte) && e.gasConfig.DataCopyPerByte == old(e.gasConfig.DataCopyPerByte) && e.gasConfig.PersistPerByte == old(e.gasConfig.PersistPerByte) && e.gasConfig.CompilePerByte == old(e.gasConfig.CompilePerByte) && e.gasConfig.AoTPreparePerByte == old(e.gasConfig.AoTPreparePerByte)
 //@   modifies e.funcGasCost, e.gasConfig.*
 
 //@ func (e *esdtNFTAddQuantity) SetNewGasConfig
+//@   implements vmcommon.BuiltinFunction.SetNewGasConfig
 //@   requires e != nil && locksFree()
 //@   ensures[C16] gasCost != nil ==> e.funcGasCost == gasCost.BuiltInCost.ESDTNFTAddQuantity
 //@   ensures[C16] gasCost == nil ==> e.funcGasCost == old(e.funcGasCost)
 //@   modifies e.funcGasCost
 
 //@ func (e *esdtNFTBurn) SetNewGasConfig
+//@   implements vmcommon.BuiltinFunction.SetNewGasConfig
 //@   requires e != nil && locksFree()
 //@   ensures[C16] gasCost != nil ==> e.funcGasCost == gasCost.BuiltInCost.ESDTNFTBurn
 //@   ensures[C16] gasCost == nil ==> e.funcGasCost == old(e.funcGasCost)
 //@   modifies e.funcGasCost
 
 //@ func (e *esdtNFTTransfer) SetNewGasConfig
+//@   implements vmcommon.BuiltinFunction.SetNewGasConfig
 //@   requires e != nil && locksFree()
 //@   ensures[C16] gasCost != nil ==> e.funcGasCost == gasCost.BuiltInCost.ESDTNFTTransfer && e.gasConfig.StorePerByte == gasCost.BaseOperationCost.StorePerByte && e.gasConfig.ReleasePerByte == gasCost.BaseOperationCost.ReleasePerByte && e.gasConfig.DataCopyPerByte == gasCost.BaseOperationCost.DataCopyPerByte && e.gasConfig.PersistPerByte == gasCost.BaseOperationCost.PersistPerByte && e.gasConfig.CompilePerByte == gasCost.BaseOperationCost.CompilePerByte && e.gasConfig.AoTPreparePerByte == gasCost.BaseOperationCost.AoTPreparePerByte
 //@   ensures[C16] gasCost == nil ==> e.funcGasCost == old(e.funcGasCost) && e.gasConfig.StorePerByte == old(e.gasConfig.StorePerByte) && e.gasConfig.ReleasePerByte == old(e.gasConfig.ReleasePerByte) && e.gasConfig.DataCopyPerByte == old(e.gasConfig.DataCopyPerByte) && e.gasConfig.PersistPerByte == old(e.gasConfig.PersistPerByte) && e.gasConfig.CompilePerByte == old(e.gasConfig.CompilePerByte) && e.gasConfig.AoTPreparePerByte == old(e.gasConfig.AoTPreparePerByte)
 //@   modifies e.funcGasCost, e.gasConfig.*
 
 //@ func (e *esdtNFTMultiTransfer) SetNewGasConfig
+//@   implements vmcommon.BuiltinFunction.SetNewGasConfig
 //@   requires e != nil && locksFree()
 //@   ensures[C16] gasCost != nil ==> e.funcGasCost == gasCost.BuiltInCost.ESDTNFTMultiTransfer && e.gasConfig.StorePerByte == gasCost.BaseOperationCost.StorePerByte && e.gasConfig.ReleasePerByte == gasCost.BaseOperationCost.ReleasePerByte && e.gasConfig.DataCopyPerByte == gasCost.BaseOperationCost.DataCopyPerByte && e.gasConfig.PersistPerByte == gasCost.BaseOperationCost.PersistPerByte && e.gasConfig.CompilePerByte == gasCost.BaseOperationCost.CompilePerByte && e.gasConfig.AoTPreparePerByte == gasCost.BaseOperationCost.AoTPreparePerByte
 //@   ensures[C16] gasCost == nil ==> e.funcGasCost == old(e.funcGasCost) && e.gasConfig.StorePerByte == old(e.gasConfig.StorePerByte) && e.gasConfig.ReleasePerByte == old(e.gasConfig.ReleasePerByte) && e.gasConfig.DataCopyPerByte == old(e.gasConfig.DataCopyPerByte) && e.gasConfig.PersistPerByte == old(e.gasConfig.PersistPerByte) && e.gasConfig.CompilePerByte == old(e.gasConfig.CompilePerByte) && e.gasConfig.AoTPreparePerByte == old(e.gasConfig.AoTPreparePerByte)
 //@   modifies e.funcGasCost, e.gasConfig.*
 
 //@ func (e *esdtNFTAddUri) SetNewGasConfig
+//@   implements vmcommon.BuiltinFunction.SetNewGasConfig
 //@   requires e != nil && locksFree()
 //@   ensures[C16] gasCost != nil ==> e.funcGasCost == gasCost.BuiltInCost.ESDTNFTAddURI && e.gasConfig.StorePerByte == gasCost.BaseOperationCost.StorePerByte && e.gasConfig.ReleasePerByte == gasCost.BaseOperationCost.ReleasePerByte && e.gasConfig.DataCopyPerByte == gasCost.BaseOperationCost.DataCopyPerByte && e.gasConfig.PersistPerByte == gasCost.BaseOperationCost.PersistPerByte && e.gasConfig.CompilePerByte == gasCost.BaseOperationCost.CompilePerByte && e.gasConfig.AoTPreparePerByte == gasCost.BaseOperationCost.AoTPreparePerByte
 //@   ensures[C16] gasCost == nil ==> e.funcGasCost == old(e.funcGasCost) && e.gasConfig.StorePerByte == old(e.gasConfig.StorePerByte) && e.gasConfig.ReleasePerByte == old(e.gasConfig.ReleasePerByte) && e.gasConfig.DataCopyPerByte == old(e.gasConfig.DataCopyPerByte) && e.gasConfig.PersistPerByte == old(e.gasConfig.PersistPerByte) && e.gasConfig.CompilePerByte == old(e.gasConfig.CompilePerByte) && e.gasConfig.AoTPreparePerByte == old(e.gasConfig.AoTPreparePerByte)
 //@   modifies e.funcGasCost, e.gasConfig.*
 
 //@ func (e *esdtNFTupdate) SetNewGasConfig
+//@   implements vmcommon.BuiltinFunction.SetNewGasConfig
 //@   requires e != nil && locksFree()
 //@   ensures[C16] gasCost != nil ==> e.funcGasCost == gasCost.BuiltInCost.ESDTNFTUpdateAttributes && e.gasConfig.StorePerByte == gasCost.BaseOperationCost.StorePerByte && e.gasConfig.ReleasePerByte == gasCost.BaseOperationCost.ReleasePerByte && e.gasConfig.DataCopyPerByte == gasCost.BaseOperationCost.DataCopyPerByte && e.gasConfig.PersistPerByte == gasCost.BaseOperationCost.PersistPerByte && e.gasConfig.CompilePerByte == gasCost.BaseOperationCost.CompilePerByte && e.gasConfig.AoTPreparePerByte == gasCost.BaseOperationCost.AoTPreparePerByte
 //@   ensures[C16] gasCost == nil ==> e.funcGasCost == old(e.funcGasCost) && e.gasConfig.StorePerByte == old(e.gasConfig.StorePerByte) && e.gasConfig.ReleasePerByte == old(e.gasConfig.ReleasePerByte) && e.gasConfig.DataCopyPerByte == old(e.gasConfig.DataCopyPerByte) && e.gasConfig.PersistPerByte == old(e.gasConfig.PersistPerByte) && e.gasConfig.CompilePerByte == old(e.gasConfig.CompilePerByte) && e.gasConfig.AoTPreparePerByte == old(e.gasConfig.AoTPreparePerByte)
@@ -827,6 +842,19 @@ func lemmaActivationFollowsLastEpoch(b *baseEnabled, e1, e2 uint32, t1, t2 uint6
 
 // ---- gas schedule changes (C16): an incomplete or zero schedule is rejected as a whole --------------------
 
+// functions without a price: nothing changes
+//@ func (e *esdtPause) SetNewGasConfig
+//@   implements vmcommon.BuiltinFunction.SetNewGasConfig
+
+//@ func (e *esdtFreezeWipe) SetNewGasConfig
+//@   implements vmcommon.BuiltinFunction.SetNewGasConfig
+
+//@ func (e *esdtRoles) SetNewGasConfig
+//@   implements vmcommon.BuiltinFunction.SetNewGasConfig
+
+//@ func (e *esdtNFTCreateRoleTransfer) SetNewGasConfig
+//@   implements vmcommon.BuiltinFunction.SetNewGasConfig
+
 //@ func createGasConfig
 //@   results r, err
 //@   view mb = gasMap["BaseOperationCost"]
@@ -837,9 +865,54 @@ func lemmaActivationFollowsLastEpoch(b *baseEnabled, e1, e2 uint32, t1, t2 uint6
 //@   ensures[C16] unchangedAll()
 
 //@ func (b *builtInFuncFactory) GasScheduleChange
-//@   requires b != nil && !isNil(b.builtInFunctions)
+//@   requires b != nil && !isNil(b.builtInFunctions) && locksFree()
+//@   view reg = payload(b.builtInFunctions)
+//@   loop 0 invariant b.gasConfig == newGasConfig && newGasConfig != nil && fresh(newGasConfig) && locksFree()
+//@   loop 0 invariant forall(k, bseq, visited(0)[k] ==> priced(RegTyp[reg][k], RegVal[reg][k], newGasConfig))
+//@   ensures[C16] b.gasConfig != old(b.gasConfig) ==> b.gasConfig != nil && completeBase(gasSchedule["BaseOperationCost"]) && completeBuiltIn(gasSchedule["BuiltInCost"]) && b.gasConfig.BuiltInCost.ESDTTransfer == gasSchedule["BuiltInCost"]["ESDTTransfer"] && b.gasConfig.BaseOperationCost.StorePerByte == gasSchedule["BaseOperationCost"]["StorePerByte"]
+//@   ensures[C16] b.gasConfig != old(b.gasConfig) ==> forall(k, bseq, RegHas[reg][k] ==> priced(RegTyp[reg][k], RegVal[reg][k], b.gasConfig))
 //@   ensures[C16] !(completeBase(gasSchedule["BaseOperationCost"]) && completeBuiltIn(gasSchedule["BuiltInCost"])) ==> unchangedAll()
 //@   modifies b.gasConfig, heap(H|builtInFunctions.changeOwnerAddress|.gasCost), heap(H|builtInFunctions.claimDeveloperRewards|.gasCost), heap(H|builtInFunctions.saveUserName|.gasCost), heap(H|builtInFunctions.saveKeyValueStorage|.funcGasCost), heap(H|builtInFunctions.saveKeyValueStorage|.gasConfig.StorePerByte), heap(H|builtInFunctions.saveKeyValueStorage|.gasConfig.ReleasePerByte), heap(H|builtInFunctions.saveKeyValueStorage|.gasConfig.DataCopyPerByte), heap(H|builtInFunctions.saveKeyValueStorage|.gasConfig.PersistPerByte), heap(H|builtInFunctions.saveKeyValueStorage|.gasConfig.CompilePerByte), heap(H|builtInFunctions.saveKeyValueStorage|.gasConfig.AoTPreparePerByte), heap(H|builtInFunctions.esdtTransfer|.funcGasCost), heap(H|builtInFunctions.esdtBurn|.funcGasCost), heap(H|builtInFunctions.esdtLocalMint|.funcGasCost), heap(H|builtInFunctions.esdtLocalBurn|.funcGasCost), heap(H|builtInFunctions.esdtNFTCreate|.funcGasCost), heap(H|builtInFunctions.esdtNFTCreate|.gasConfig.StorePerByte), heap(H|builtInFunctions.esdtNFTCreate|.gasConfig.ReleasePerByte), heap(H|builtInFunctions.esdtNFTCreate|.gasConfig.DataCopyPerByte), heap(H|builtInFunctions.esdtNFTCreate|.gasConfig.PersistPerByte), heap(H|builtInFunctions.esdtNFTCreate|.gasConfig.CompilePerByte), heap(H|builtInFunctions.esdtNFTCreate|.gasConfig.AoTPreparePerByte), heap(H|builtInFunctions.esdtNFTAddQuantity|.funcGasCost), heap(H|builtInFunctions.esdtNFTBurn|.funcGasCost), heap(H|builtInFunctions.esdtNFTTransfer|.funcGasCost), heap(H|builtInFunctions.esdtNFTTransfer|.gasConfig.StorePerByte), heap(H|builtInFunctions.esdtNFTTransfer|.gasConfig.ReleasePerByte), heap(H|builtInFunctions.esdtNFTTransfer|.gasConfig.DataCopyPerByte), heap(H|builtInFunctions.esdtNFTTransfer|.gasConfig.PersistPerByte), heap(H|builtInFunctions.esdtNFTTransfer|.gasConfig.CompilePerByte), heap(H|builtInFunctions.esdtNFTTransfer|.gasConfig.AoTPreparePerByte), heap(H|builtInFunctions.esdtNFTMultiTransfer|.funcGasCost), heap(H|builtInFunctions.esdtNFTMultiTransfer|.gasConfig.StorePerByte), heap(H|builtInFunctions.esdtNFTMultiTransfer|.gasConfig.ReleasePerByte), heap(H|builtInFunctions.esdtNFTMultiTransfer|.gasConfig.DataCopyPerByte), heap(H|builtInFunctions.esdtNFTMultiTransfer|.gasConfig.PersistPerByte), heap(H|builtInFunctions.esdtNFTMultiTransfer|.gasConfig.CompilePerByte), heap(H|builtInFunctions.esdtNFTMultiTransfer|.gasConfig.AoTPreparePerByte), heap(H|builtInFunctions.esdtNFTAddUri|.funcGasCost), heap(H|builtInFunctions.esdtNFTAddUri|.gasConfig.StorePerByte), heap(H|builtInFunctions.esdtNFTAddUri|.gasConfig.ReleasePerByte), heap(H|builtInFunctions.esdtNFTAddUri|.gasConfig.DataCopyPerByte), heap(H|builtInFunctions.esdtNFTAddUri|.gasConfig.PersistPerByte), heap(H|builtInFunctions.esdtNFTAddUri|.gasConfig.CompilePerByte), heap(H|builtInFunctions.esdtNFTAddUri|.gasConfig.AoTPreparePerByte), heap(H|builtInFunctions.esdtNFTupdate|.funcGasCost), heap(H|builtInFunctions.esdtNFTupdate|.gasConfig.StorePerByte), heap(H|builtInFunctions.esdtNFTupdate|.gasConfig.ReleasePerByte), heap(H|builtInFunctions.esdtNFTupdate|.gasConfig.DataCopyPerByte), heap(H|builtInFunctions.esdtNFTupdate|.gasConfig.PersistPerByte), heap(H|builtInFunctions.esdtNFTupdate|.gasConfig.CompilePerByte), heap(H|builtInFunctions.esdtNFTupdate|.gasConfig.AoTPreparePerByte)
+
+// ---- the function container (C19): each method is one operation of the lock-protected map beneath it (one
+// critical section, see container/zz_contracts_verif.go) with the sequential effect stated here over the
+// map's contents; keys are the function names boxed as interface values.
+
+//@ func (f *functionContainer) Get
+//@   results r, err
+//@   view K = mkey(box(key))
+//@   requires f != nil && f.objects != nil && locksFree()
+//@   ensures[C19] err == nil ==> mhas(f.objects.values)[K] && typ(r) == mtyp(f.objects.values)[K] && payload(r) == mval(f.objects.values)[K]
+//@   ensures[C19] !mhas(f.objects.values)[K] || f.objects.values == nil ==> isErr(err, ErrInvalidContainerKey)
+
+//@ func (f *functionContainer) Add
+//@   results err
+//@   view K = mkey(box(key))
+//@   requires f != nil && f.objects != nil && f.objects.values != nil && locksFree()
+//@   ensures[C19] err == nil ==> !isNil(function) && len(key) > 0 && !old(mhas(f.objects.values))[K]
+//@   ensures[C19] err == nil ==> mhas(f.objects.values) == upd(old(mhas(f.objects.values)), K, true) && mtyp(f.objects.values) == upd(old(mtyp(f.objects.values)), K, typ(function)) && mval(f.objects.values) == upd(old(mval(f.objects.values)), K, payload(function))
+//@   ensures[C19] err != nil ==> mhas(f.objects.values) == old(mhas(f.objects.values)) && mtyp(f.objects.values) == old(mtyp(f.objects.values)) && mval(f.objects.values) == old(mval(f.objects.values))
+//@   ensures[C19] !isNil(function) && len(key) > 0 && !old(mhas(f.objects.values))[K] ==> err == nil
+//@   modifies map(f.objects.values)
+
+//@ func (f *functionContainer) Replace
+//@   results err
+//@   view K = mkey(box(key))
+//@   requires f != nil && f.objects != nil && f.objects.values != nil && locksFree()
+//@   ensures[C19] (err == nil) == (!isNil(function) && len(key) > 0)
+//@   ensures[C19] err == nil ==> mhas(f.objects.values) == upd(old(mhas(f.objects.values)), K, true) && mtyp(f.objects.values) == upd(old(mtyp(f.objects.values)), K, typ(function)) && mval(f.objects.values) == upd(old(mval(f.objects.values)), K, payload(function))
+//@   ensures[C19] err != nil ==> mhas(f.objects.values) == old(mhas(f.objects.values)) && mtyp(f.objects.values) == old(mtyp(f.objects.values)) && mval(f.objects.values) == old(mval(f.objects.values))
+//@   modifies map(f.objects.values)
+
+//@ func (f *functionContainer) Remove
+//@   view K = mkey(box(key))
+//@   requires f != nil && f.objects != nil && locksFree()
+//@   ensures[C19] f.objects.values != nil ==> mhas(f.objects.values) == upd(old(mhas(f.objects.values)), K, false)
+//@   modifies map(f.objects.values)
+
+//@ func (f *functionContainer) Len
+//@   requires f != nil && f.objects != nil && locksFree()
+//@   ensures[C19] r == mlen(f.objects.values)
 
 // ---- the factory (C18 registry clause, C16 at construction): the container holds exactly the 23 protocol
 // names, each bound to the implementation of that name configured from the factory arguments and priced by
